@@ -31,6 +31,10 @@ struct Scn {
     /// the upstream iterator reports its exact remaining length as size hint (otherwise `(0, None)`);
     /// such scenarios are run for the finite upstream lengths only
     exact: bool,
+    /// the processing function contains a scheduling point of its own ("the item is being
+    /// processed"): other threads and the consumer's drop can fall between a worker's taking an item
+    /// and its next operation on the shared primitives
+    work: bool,
 }
 
 impl Scn {
@@ -38,7 +42,7 @@ impl Scn {
         4 * self.w + 2 * self.b + 8
     }
     fn json(&self) -> Value {
-        json!({"kind": format!("{:?}", self.kind), "workers": self.w, "buffer_size": self.b, "consume_before_drop": self.k, "idle_before_drop": self.idle, "upstream_exact_size_hint": self.exact})
+        json!({"kind": format!("{:?}", self.kind), "workers": self.w, "buffer_size": self.b, "consume_before_drop": self.k, "idle_before_drop": self.idle, "upstream_exact_size_hint": self.exact, "processing_has_a_scheduling_point": self.work})
     }
     fn from_json(v: &Value) -> Scn {
         let kind = match v["kind"].as_str().unwrap() {
@@ -46,7 +50,7 @@ impl Scn {
             "Buffered" => Kind::Buffered,
             _ => Kind::Composite,
         };
-        Scn { kind, w: v["workers"].as_u64().unwrap() as usize, b: v["buffer_size"].as_u64().unwrap() as usize, k: v["consume_before_drop"].as_u64().unwrap() as usize, idle: v["idle_before_drop"].as_bool().unwrap_or(true), exact: v["upstream_exact_size_hint"].as_bool().unwrap_or(false) }
+        Scn { kind, w: v["workers"].as_u64().unwrap() as usize, b: v["buffer_size"].as_u64().unwrap() as usize, k: v["consume_before_drop"].as_u64().unwrap() as usize, idle: v["idle_before_drop"].as_bool().unwrap_or(true), exact: v["upstream_exact_size_hint"].as_bool().unwrap_or(false), work: v["processing_has_a_scheduling_point"].as_bool().unwrap_or(false) }
     }
     fn threads(&self) -> Vec<(ThreadKind, usize)> {
         let mut t = vec![];
@@ -111,6 +115,10 @@ fn build(scn: Scn, n: usize, pulled: Arc<AtomicUsize>, panic_at: Option<usize>) 
     let f: Pipeline<usize, usize> = Arc::new(move |x: usize| {
         if Some(x) == panic_at {
             panic!("processing function fails on item {x}");
+        }
+        if scn.work {
+            // an always-enabled point that changes nothing in the mirror (a lock nobody ever holds)
+            text_utils::verif::point(text_utils::verif::Event::Lock { obj: text_utils::verif::Obj::CountLock });
         }
         10 * x + 1
     });
@@ -280,7 +288,7 @@ struct Unit {
 fn units(run: &Run) -> Vec<Unit> {
     let q = run.quick();
     let mut u = vec![];
-    let mut add = |kind: Kind, w: usize, b: usize, k: usize, idle: bool, bound: Option<usize>| u.push(Unit { scn: Scn { kind, w, b, k, idle, exact: false }, bound });
+    let mut add = |kind: Kind, w: usize, b: usize, k: usize, idle: bool, bound: Option<usize>| u.push(Unit { scn: Scn { kind, w, b, k, idle, exact: false, work: false }, bound });
     let kmax = if q { 2 } else { 3 };
     // explicit-state search, consumer idles before the drop
     for k in 0..=kmax {
@@ -331,13 +339,21 @@ fn units(run: &Run) -> Vec<Unit> {
             }
         }
     }
+    // processing takes time: a scheduling point inside the processing function (the consumer drops
+    // the iterator at an arbitrary moment)
+    for k in 0..=(if q { 0 } else { 1 }) {
+        u.push(Unit { scn: Scn { kind: Kind::Pipe, w: 3, b: 0, k, idle: false, exact: false, work: true }, bound: None });
+        if !q {
+            u.push(Unit { scn: Scn { kind: Kind::Pipe, w: 2, b: 0, k, idle: false, exact: false, work: true }, bound: None });
+        }
+    }
     // upstreams that announce their exact length (the lookahead must still not depend on it)
     for k in 0..=1usize {
-        u.push(Unit { scn: Scn { kind: Kind::Buffered, w: 0, b: 1, k, idle: true, exact: true }, bound: None });
-        u.push(Unit { scn: Scn { kind: Kind::Pipe, w: 2, b: 0, k, idle: true, exact: true }, bound: None });
+        u.push(Unit { scn: Scn { kind: Kind::Buffered, w: 0, b: 1, k, idle: true, exact: true, work: false }, bound: None });
+        u.push(Unit { scn: Scn { kind: Kind::Pipe, w: 2, b: 0, k, idle: true, exact: true, work: false }, bound: None });
         if !q || k == 0 {
-            u.push(Unit { scn: Scn { kind: Kind::Buffered, w: 0, b: 2, k, idle: true, exact: true }, bound: None });
-            u.push(Unit { scn: Scn { kind: Kind::Composite, w: 2, b: 1, k, idle: true, exact: true }, bound: None });
+            u.push(Unit { scn: Scn { kind: Kind::Buffered, w: 0, b: 2, k, idle: true, exact: true, work: false }, bound: None });
+            u.push(Unit { scn: Scn { kind: Kind::Composite, w: 2, b: 1, k, idle: true, exact: true, work: false }, bound: None });
         }
     }
     u
@@ -380,7 +396,7 @@ const HISTORIES: [&str; 4] = ["none", "earlier pipe", "earlier pipe, then train_
 
 fn run_history(h: usize, log: &std::path::Path) {
     if h >= 1 {
-        let it = build(Scn { kind: Kind::Pipe, w: 2, b: 0, k: 0, idle: true, exact: false }, 2, Arc::new(AtomicUsize::new(0)), None);
+        let it = build(Scn { kind: Kind::Pipe, w: 2, b: 0, k: 0, idle: true, exact: false, work: false }, 2, Arc::new(AtomicUsize::new(0)), None);
         if it.count() != 2 {
             std::process::exit(5);
         }
@@ -537,7 +553,7 @@ fn main() {
         let mut v = vec![];
         for w in 1..=2usize {
             for p in 0..=2usize {
-                v.push((Scn { kind: Kind::Pipe, w, b: 0, k: 0, idle: true, exact: false }, 3usize, p, 0usize, 1usize));
+                v.push((Scn { kind: Kind::Pipe, w, b: 0, k: 0, idle: true, exact: false, work: false }, 3usize, p, 0usize, 1usize));
             }
         }
         // from non-initial process states (the panic hook is global): quick the default schedule and
@@ -545,17 +561,17 @@ fn main() {
         for h in 1..HISTORIES.len() {
             for p in 0..=2usize {
                 if p == 1 || !run.quick() {
-                    v.push((Scn { kind: Kind::Pipe, w: 2, b: 0, k: 0, idle: true, exact: false }, 3usize, p, h, 1usize));
+                    v.push((Scn { kind: Kind::Pipe, w: 2, b: 0, k: 0, idle: true, exact: false, work: false }, 3usize, p, h, 1usize));
                 }
             }
         }
         if !run.quick() {
             for p in 0..=2usize {
-                v.push((Scn { kind: Kind::Pipe, w: 3, b: 0, k: 0, idle: true, exact: false }, 3usize, p, 0, 1));
-                v.push((Scn { kind: Kind::Composite, w: 2, b: 1, k: 0, idle: true, exact: false }, 3usize, p, 0, 1));
+                v.push((Scn { kind: Kind::Pipe, w: 3, b: 0, k: 0, idle: true, exact: false, work: false }, 3usize, p, 0, 1));
+                v.push((Scn { kind: Kind::Composite, w: 2, b: 1, k: 0, idle: true, exact: false, work: false }, 3usize, p, 0, 1));
             }
             for h in 1..HISTORIES.len() {
-                v.push((Scn { kind: Kind::Composite, w: 2, b: 1, k: 0, idle: true, exact: false }, 3usize, 1, h, 1));
+                v.push((Scn { kind: Kind::Composite, w: 2, b: 1, k: 0, idle: true, exact: false, work: false }, 3usize, 1, h, 1));
             }
         }
         v
